@@ -96,7 +96,7 @@ def step (cx : Ctx) (line : String) (robs : Option RObs) : Option MOut :=
       | .ok none => some cx.badOp
       | .ok (some rc) =>
         let rootOnly := ["new","init","from_vec","from_box","default","with_capacity","into_vec","into_box","into_iter",
-          "clone","clone_from","eq","insert_row","push_row","insert_col","push_col","remove_row","pop_row","remove_col","pop_col",
+          "clone","clone_from","eq","eqself","insert_row","push_row","insert_col","push_col","remove_row","pop_row","remove_col","pop_col",
           "clear","swap_dimensions","reserve","reserve_exact","shrink_to_fit","capacity"]
         if rootOnly.contains op then
           if !rc.isRoot then some cx.badOp
